@@ -613,6 +613,39 @@ def retry_in_loop(rng, case):
     return case
 
 
+def ctx_config_call(rng, case):
+    """call / switch configuration that lives in the context (set by an earlier step, not given through
+    `in`): the callee removes or overwrites it; when the call returns the caller's configuration is the
+    caller's again — also for a caller without any loop decorator."""
+    groups = [gs for gs in case['lib'][0][1] if gs[0] not in ('steps', 'ccg', 'gz')]
+    kind = rng.choice(['call', 'call', 'switch'])
+    cfg = 'ccg' if kind == 'call' and rng.random() < 0.5 else \
+        ({'d': [['groups', {'l': ['ccg']}]]} if kind == 'call' else
+         {'l': [{'d': [['case', True], ['call', 'ccg']]}]})
+    setcfg = {'body': 'set', 'in': [['ptag', 'main/steps/0'], ['set', {'d': [[kind, cfg]]}]]}
+    caller = {'body': kind, 'in': [['ptag', 'main/steps/1']]}
+    shape = rng.choice(['bare', 'bare', 'foreach', 'swallow'])
+    if shape == 'foreach':
+        caller['foreach'] = {'l': [1, 2]}
+    elif shape == 'swallow':
+        caller['swallow'] = True
+    spoil = rng.choice(['clear', 'set', 'setdict'])
+    callee = [{'body': 'probe', 'in': [['ptag', 'main/ccg/0'], ['pwatch', {'l': [kind]}]]}]
+    if spoil == 'clear':
+        callee.append({'body': 'clear', 'in': [['ptag', 'main/ccg/1'], ['contextClear', {'l': [kind]}]]})
+    else:
+        callee.append({'body': 'set', 'in': [['ptag', 'main/ccg/1'],
+                                            ['set', {'d': [[kind, 'gz' if spoil == 'set' else {'d': [['groups', 'gz']]}]]}]]})
+    after = {'body': 'probe', 'in': [['ptag', 'main/steps/2'], ['pwatch', {'l': [kind]}]]}
+    again = {'body': kind, 'in': [['ptag', 'main/steps/3']]}
+    steps = [setcfg, caller, after] + ([again, dict(after, **{'in': [['ptag', 'main/steps/4'], ['pwatch', {'l': [kind]}]]})]
+                                       if rng.random() < 0.5 else [])
+    case['lib'][0][1] = [['steps', steps]] + groups + [['ccg', callee],
+                                                      ['gz', [{'body': 'probe', 'in': [['ptag', 'main/gz/0']]}]]]
+    case.pop('groups', None)
+    return case
+
+
 def walrus_shadow(rng, case):
     """a !py decorator that binds a name with := , then later !py decorators reading the context key of
     the same name (as run / skip / swallow, also inside loops): the binding must be gone."""
